@@ -12,6 +12,21 @@ CHECKS = {
             "Every public read (Get, Has, GetWithIndex, GetByIndex, Size, Iterate, GetVersioned) of the working tree and of every retained version is compared with a versioned-map model after every step of thousands of short generated histories (tiny key universes, adjacent/prefix keys, no-op commits, small flush thresholds, reopenings at latest or older versions, pruning, rollbacks), each history executed under 3 independently drawn configurations incl. MemDB/PrefixDB/GoLevelDB. Held on the executions observed; not a proof.",
             "Trusted: the ~150-line model M; the instrumented storage seam. Histories are short (<=120 ops), DeleteVersionsTo only below the version the working tree is based on.",
             "DESIGN.md §3 C01"),
+    "C04": ("exploration",
+            "runtime monitoring: before/after observation vectors (hash, contents, reads, ICS-23 proof verification) around every DeleteVersionsTo, live and after reopen; raw-store comparison for rejected requests; export pin",
+            "Around every DeleteVersionsTo(n) in thousands of generated histories (no-op commits, empty versions, single-leaf roots, rollbacks + rewrites, deletions split over several physical batches by small flush thresholds), an observation vector of every later version is recorded before and compared after the call, on the live handle and on a freshly opened one; deleted versions must be unavailable on every API; rejected requests (latest version, version pinned by an open Exporter) must leave the raw store byte-identical.",
+            "Trusted: model M, the ics23 verifier. Synchronous pruning only (async pruning is exercised by C06).",
+            "DESIGN.md §3 C04"),
+    "C12": ("exploration",
+            "runtime monitoring: raw-storage audit after every step with an independent decoder (reachability from the retained versions, leak detection, fast-index entries and label)",
+            "After every step of thousands of crash-free histories the raw store is decoded with the independent decoder D and audited: every retained version decodable with all child links resolving and contents equal to the model, every stored node reachable from a retained version, fast index entries + label describing exactly the latest version.",
+            "Trusted: decoder D and model M (R is deliberately not used). Synchronous pruning, no faults.",
+            "DESIGN.md §3 C12"),
+    "C14": ("exploration",
+            "runtime monitoring: version-range model compared with every bookkeeping API after every step, on the live handle and on a fresh handle; raw-store comparison for rejected requests",
+            "After every step: commit numbering, VersionExists / AvailableVersions / GetImmutable / GetLatestVersion / GetVersioned / LoadVersion for every version number in {0,1,first-2..latest+1} on the live handle and after a reopen; re-commit of an existing version number accepted iff the reference tree says the hash is identical; rejected requests leave the raw store byte-identical and the tree usable.",
+            "Trusted: model M (range), reference tree R (hash equality of re-commits).",
+            "DESIGN.md §3 C14"),
 }
 
 NOT_YET = "check not built yet (construction in progress, see DESIGN.md Appendix C)"
